@@ -1816,6 +1816,7 @@ func c02Main(c *Ctx, filter *c02Case) string {
 		c02SelfTest(c)
 		if c.Shard == 0 {
 			c02TailForgery(c, r.up)
+			c02KeystreamReuse(c, r.up)
 		}
 	}
 	if !r.build(thorough) {
